@@ -16,7 +16,12 @@ for d in sorted(glob.glob('/verif/seeded/*/')):
                 title = re.sub(r'^#+\s*', '', line.strip())
                 title = re.sub(r'^(C\d+\s*/\s*)?[Cc]hange\s*\d+\s*[—–:-]*\s*', '', title)
                 break
-    det = ', '.join(m.get('detected_by') or []) or '**missed**'
+    names = []
+    for c in m.get('detected_by') or []:
+        lines = [l for l in m.get('checks', {}).get(c, {}).get('lines', []) if l.startswith('VIOLATION')]
+        concrete = any('no-failing-input-found' not in l for l in lines)
+        names.append(c if concrete or not lines else c + '°')
+    det = ', '.join(names) or '**missed**'
     rows.append((name, m.get('property', name[:3]), title[:150].replace('|', '/'), det))
 import sys
 _out = []
@@ -26,7 +31,9 @@ print('| seed | property | change | caught by (quick tier) |')
 print('|---|---|---|---|')
 for r in rows:
     print('| ' + ' | '.join(r) + ' |')
-print(f'\n{len(rows)} seeded changes, {sum(1 for r in rows if "missed" not in r[3])} caught.')
+print(f'\n{len(rows)} seeded changes, {sum(1 for r in rows if "missed" not in r[3])} caught; '
+      f'{sum(1 for r in rows if any(not c.endswith("°") for c in r[3].split(", ")) and "missed" not in r[3])} with a concrete failing input from at least one check.  '
+      '`°` = that check reported only a broken proof obligation / translator obligation (`no-failing-input-found`).')
 
 text = '\n'.join(_out) + '\n'
 if '--design' in sys.argv:
